@@ -1,3 +1,183 @@
-// stub
-static void run_c13(Context&) {}
-template <class T> static bool c13_replay(Context&, const std::string&, const Target&, const xsv_entry*, const T*, const T*, mfn::Arbiter&) { return true; }
+// C13 (elementary functions): the result in a lane depends only on that lane's operand.  f(x)[k] is compared
+// with f(broadcast(x[k]))[0]: same special-value class and within twice the function's accuracy bound (both are
+// within one bound of the exact value); companions are drawn on both sides of every any()/all() threshold.
+template <class T>
+static int special_class(T v)
+{
+    if (std::isnan(v))
+        return 1;
+    if (std::isinf(v))
+        return v > 0 ? 2 : 3;
+    if (v == 0)
+        return 4;
+    return v > 0 ? 5 : 6;
+}
+
+template <class T>
+static bool c13_batch(Context& cx, const Fn& f, const Target& tg, const xsv_entry* e, const T* xs, const T* ys, const char* layout)
+{
+    const int n = e->lanes;
+    const bool binary = f.arity == 2;
+    T full[64], bx[64], by[64], bo[64];
+    CallResult cr = call<T>(cx, tg, e, xs, binary ? ys : nullptr, full);
+    if (cr.overflowed)
+        return true; // C14's business
+    bool ok = true;
+    for (int k = 0; k < n; ++k)
+    {
+        for (int i = 0; i < n; ++i)
+        {
+            bx[i] = xs[k];
+            by[i] = binary ? ys[k] : (T)0;
+        }
+        CallResult c2 = call<T>(cx, tg, e, bx, binary ? by : nullptr, bo);
+        if (c2.overflowed)
+            continue;
+        cx.st.lane_checks++;
+        std::string why;
+        // broadcasting one value gives identical results in all lanes
+        for (int j = 1; j < n && why.empty(); ++j)
+            if (!model::same(bo[0], bo[j]))
+                why = "f(broadcast(v)) differs between lane 0 and lane " + std::to_string(j);
+        const T a = full[k], b = bo[0];
+        if (why.empty() && special_class(a) != special_class(b))
+        {
+            // a zero against a tiny non-zero value of the same sign is an accuracy matter, everything else is a class change
+            const bool tiny = (a == 0 || b == 0) && std::fabs(a) <= 16 * std::numeric_limits<T>::min() && std::fabs(b) <= 16 * std::numeric_limits<T>::min();
+            const bool huge = (std::isinf(a) || std::isinf(b)) && !std::isnan(a) && !std::isnan(b) && std::signbit(a) == std::signbit(b) && std::fabs(a) >= std::numeric_limits<T>::max() / 16 && std::fabs(b) >= std::numeric_limits<T>::max() / 16;
+            if (!tiny && !huge)
+                why = "special-value class of the lane changes with the companions";
+        }
+        if (why.empty() && std::isfinite(a) && std::isfinite(b) && a != b)
+        {
+            ld mv = mfn::metric_value(f, (ld)b);
+            if (fabsl(mv) < 4 * (ld)std::numeric_limits<T>::min())
+                mv = 4 * (ld)std::numeric_limits<T>::min();
+            ld u = mfn::ulp_of(mv, prec<T>::p);
+            double err = (double)(fabsl((ld)a - (ld)b) / u);
+            double bound = 2 * mfn::bound_at<T>(f, (ld)xs[k], binary ? (ld)ys[k] : 0, (ld)b) + 1;
+            // inside an open accuracy finding the results may differ by that class's regression bound
+            if (err > bound && !math_known<T>(cx.opt, f, (ld)xs[k], binary ? (ld)ys[k] : 0, a, (ld)b, err / 2))
+            {
+                char buf[160];
+                snprintf(buf, sizeof buf, "lane result differs from f(broadcast(v)) by %.1f ulp, more than twice the accuracy bound (%.1f): the companions change more than last-place bits", err, bound);
+                why = buf;
+            }
+        }
+        if (!why.empty())
+        {
+            ok = false;
+            std::string key = std::string(f.name) + ":" + prec<T>::tn + ":" + tg.name;
+            if (!cx.has_violation(key))
+                cx.add_violation(math_viol<T>(cx, f.name, tg, n, xs, binary ? ys : nullptr, k, lane_str(prec<T>::tid, &b), lane_str(prec<T>::tid, &a), why + " [" + layout + "]"));
+        }
+    }
+    return ok;
+}
+
+template <class T>
+static void c13_type(Context& cx)
+{
+    using L = std::numeric_limits<T>;
+    size_t item = 0;
+    for (auto& f : mfn::table())
+    {
+        if (!cx.opt.only_ops.empty() && !cx.opt.only_ops.count(f.name))
+            continue;
+        for (auto& tg : g_targets)
+        {
+            const xsv_entry* e = tg.find(f.name, prec<T>::tn);
+            if (!e)
+                continue;
+            if ((int)(item++ % (size_t)cx.opt.nworkers) != cx.opt.worker)
+                continue;
+            cx.st.per_target[tg.name]++;
+            const int n = e->lanes;
+            std::vector<double> pts = f.points;
+            for (double p : f.points)
+                pts.push_back(-p);
+            rc::detail::TestParams params = rc::detail::configuration().testParams;
+            params.seed = mix64(params.seed ^ hash_str(f.name, sizeof(T)) ^ hash_str(tg.name));
+            params.maxSuccess = (int)std::max<long>(1, cx.opt.budget);
+            rc::detail::TestMetadata md;
+            md.id = std::string("c13:") + f.name + ":" + prec<T>::tn + ":" + tg.name;
+            // one value relative to threshold p: which side, how far
+            auto around = [&](double p, int side, uint64_t r) -> T {
+                double rel = (double)((r >> 8) % 1000 + 1) / 4000.0; // up to 25 %
+                if ((r & 3) == 0)
+                    rel = (double)L::epsilon() * (double)((r >> 20) % 16 + 1); // a few ulp
+                double v = p == 0 ? (side ? 1 : -1) * rel * 1e-3 : p * (1 + (side ? rel : -rel));
+                return (T)v;
+            };
+            rc::detail::checkTestable(
+                [&]() {
+                    T xs[64], ys[64];
+                    const int pattern = *rc::gen::resize(100, rc::gen::inRange<int>(0, 5));
+                    const double p = *rc::gen::elementOf(pts);
+                    const int odd = *rc::gen::resize(100, rc::gen::inRange<int>(0, n));
+                    auto rs = *rc::gen::container<std::vector<uint64_t>>((size_t)(2 * n), rc::gen::arbitrary<uint64_t>());
+                    int sides = 0;
+                    for (int l = 0; l < n; ++l)
+                    {
+                        const uint64_t r = mix64(rs[l]);
+                        int side = 0;
+                        switch (pattern)
+                        {
+                        case 0: side = (int)(rs[0] & 1); break; // all lanes on one side of the threshold
+                        case 1: side = l == odd ? 1 : 0; break; // exactly one lane on the other side
+                        case 2: side = l == odd ? 0 : 1; break;
+                        default: side = (int)(r >> 40) & 1; break; // mixed
+                        }
+                        sides |= 1 << side;
+                        xs[l] = around(p, side, r);
+                        if (pattern == 4)
+                        {
+                            // core / wide values, with a special value among them
+                            const double lo = f.core_lo, hi = f.core_hi;
+                            xs[l] = (T)(lo + (hi - lo) * ((double)(r >> 11) / 9007199254740992.0));
+                            if ((r & 7) == 0)
+                                xs[l] = (T)std::ldexp(1.0 + (double)(r >> 12) / 4503599627370496.0, (int)(r % 120) - 60) * ((r >> 9) & 1 ? -1 : 1);
+                        }
+                        ys[l] = (T)((double)((int64_t)(mix64(rs[n + l]) % 4001) - 2000) / 100.0);
+                    }
+                    if (pattern >= 3)
+                    {
+                        static const T sp[] = { L::quiet_NaN(), L::infinity(), -L::infinity(), (T)0, -(T)0, L::max(), -L::max(), L::denorm_min(), L::min() };
+                        xs[(odd + 1) % n] = sp[rs[0] % 9];
+                    }
+                    cx.st.evaluations++;
+                    // non-trivial: lanes not all equal and at least two lanes on different sides of a threshold (or a special companion)
+                    if (sides == 3 || pattern >= 3)
+                        cx.st.note_distinct(hash_bytes(xs, sizeof(T) * n, hash_str(f.name, n)));
+                    else
+                        cx.st.cls("trivial");
+                    static const char* pn[] = { "all_one_side", "one_lane_above", "one_lane_below", "mixed_plus_special", "core_plus_special" };
+                    cx.st.classes[std::string("pattern_") + pn[pattern]]++;
+                    if (cx.st.want_sample(std::string(f.name) + pn[pattern], 1) && cx.st.samples.size() < 80)
+                    {
+                        char b[200];
+                        snprintf(b, sizeof b, "{\"fn\":\"%s\",\"type\":\"%s\",\"pattern\":\"%s\",\"threshold\":\"%.9g\",\"lanes_head\":[\"%.9g\",\"%.9g\"]}", f.name, prec<T>::tn, pn[pattern], p, (double)xs[0], (double)xs[1 % n]);
+                        cx.st.samples.push_back(b);
+                    }
+                    RC_ASSERT(c13_batch<T>(cx, f, tg, e, xs, ys, pn[pattern]));
+                },
+                md, params);
+        }
+        cx.write_out();
+    }
+}
+
+static void run_c13(Context& cx)
+{
+    c13_type<float>(cx);
+    c13_type<double>(cx);
+}
+
+template <class T>
+static bool c13_replay(Context& cx, const std::string& op, const Target& tg, const xsv_entry* e, const T* xs, const T* ys, mfn::Arbiter&)
+{
+    const Fn* f = mfn::find(op);
+    if (!f)
+        return true;
+    return c13_batch<T>(cx, *f, tg, e, xs, ys, "replay");
+}
